@@ -298,6 +298,7 @@ let () =
       (match name, res with
        | _, "served" -> ()
        | "cancel-in-replay", "blocked" -> specviol id "c15_f10_cancel_in_replay_blocks_event_loop" (Printf.sprintf "%s store: a watch cancelled while replaying returned without draining; the event loop is blocked and an innocent watcher is starved" kind)
+       | "write-during-replay", r -> specviol id "c15_watch_missed_latest" (Printf.sprintf "%s store, forced schedule (update while the replay is parked / right after Watch returned): %s" kind r)
        | _, "panic-close-of-closed-channel" when kind = "tx3" -> specviol id "c15_v3tx_cancel_closes_channel_twice" "v3 transaction store: cancelling a watch panics (close of closed channel) and takes the process down"
        | _, _ -> specviol id "c15_cancel_disturbs_others" (Printf.sprintf "%s %s: %s" kind name res))
     | [ "c15.stress"; id; kind; log; final; wss ] ->
